@@ -52,6 +52,7 @@ class Quiescence(Monitor):
                 "sig": {
                     "status": status,
                     "after_rerun": bool(sim.h["reruns"]),
+                    "after_partial_join_rerun": sim.h["rejoin"],
                     "pause_req": sim.h["pause_req"],
                     "cancel_req": sim.h["cancel_req"],
                     "held": held,
